@@ -64,7 +64,7 @@ def prove_and_extract(ctx):
         ctx.notes.append('coq/gen/GenAnyId.v was rewritten by a concurrent run during the proof step; proof step repeated')
         proof = vlib.coq_prove(ctx, FILES)
     # the driver of this domain only (vlib builds all drivers and stops at the first failing one)
-    rc, o, e = vlib.sh('make -C %s _build/driver_anyid' % os.path.join(vlib.ROOT, 'ocaml'), timeout=600)
+    rc, o, e = vlib.sh('make -C %s _build/driver_anyid' % vlib.OCAML, timeout=600)
     if rc != 0 or not os.path.exists(os.path.join(vlib.DRIVERS, 'driver_anyid')):
         raise RuntimeError('model driver driver_anyid does not build: %s' % (e or o)[-800:])
     return proof
